@@ -170,16 +170,168 @@ def run_c15(res, work, tier, seed):
     os.remove(trace)
 
 
-def run(tier, seed, work, props=None):
-    res = core.Result()
-    run_c15(res, os.path.join(work, "c15"), tier, seed)
-    return res
+# ------------------------------------------------------------------ C16
+SORTED_CFGS = [("kv", "vec"), ("kv", "sv"), ("item", "vec"), ("item", "sv")]
+
+
+def _sorted_mc(res, work, tier, mode):
+    keys = 6 if tier == "quick" else 8
+    consts = "Keys = {%s}\n  Mode = \"%s\"\n" % (",".join(str(i) for i in range(1, keys + 1)), mode)
+    cfg = _cfg(os.path.join(work, "SortedMC_%s.cfg" % mode),
+               "SPECIFICATION Spec\nCONSTANTS\n  %s  BugF2 = FALSE\n"
+               "INVARIANTS Refines Rep Waste\nCHECK_DEADLOCK FALSE\n" % consts)
+    dot = os.path.join(work, "sorted_graph_" + mode)
+    r = tlc.run_tlc("SortedMC", cfg, os.path.join(work, "mc"), workers=8, timeout=1200, dump_dot=dot)
+    if r["violated"]:
+        raise core.ToolError("design check SortedMC violated %s (specification error):\n%s"
+                             % (r["violated"], r["out"][-3000:]))
+    res.add_mc("SortedMC(%s) I-spec refines OrdMap A-spec" % mode, r, consts.replace("\n", ";"))
+    if mode == "kv":
+        cfgb = _cfg(os.path.join(work, "SortedMC_bug.cfg"),
+                    "SPECIFICATION Spec\nCONSTANTS\n  %s  BugF2 = TRUE\n"
+                    "INVARIANTS Refines Rep Waste\nCHECK_DEADLOCK FALSE\n" % consts)
+        rb = tlc.run_tlc("SortedMC", cfgb, os.path.join(work, "mcb"), workers=4, timeout=300)
+        if rb["violated"] not in ("Rep", "Waste"):
+            raise core.ToolError("SortedMC with BugF2=TRUE should violate Rep/Waste, got %r" % rb["violated"])
+        res.data["notes"].append("SortedMC with BugF2=TRUE violates %s (F2 is reachable through "
+                                 "pop_last/remove), as expected" % rb["violated"])
+    g = graph_cover.parse_dot(dot + ".dot")
+    os.remove(dot + ".dot")
+    paths = graph_cover.edge_cover(g, max_run=200)
+    per_ev = {}
+    for (_, _, lab) in g.edges:
+        ev = core.label_event(lab)["ev"]
+        per_ev[ev] = per_ev.get(ev, 0) + 1
+    expected = {"push", "find", "remove", "pop_first", "pop_last", "clear"}
+    res.data["zero_coverage"] += sorted(expected - set(per_ev))
+    res.data["edge_cover"].append({"graph": "SortedMC(%s)" % mode, "edges": len(g.edges),
+                                   "paths": len(paths), "ops": sum(len(p) for p in paths),
+                                   "edges_per_op": per_ev})
+    return [[core.label_event(g.edges[i][2]) for i in p] for p in paths]
+
+
+def _sorted_random(rng, n_runs, n_ops):
+    runs = []
+    for _ in range(n_runs):
+        live = []
+        ops = []
+        valof = lambda k: (k % 7) + 1
+        profile = rng.choice(["fifo", "middle", "mixed"])
+        for _ in range(n_ops):
+            x = rng.random()
+            last = live[-1] if live else 0
+            if last >= 250:
+                ops.append({"ev": "clear"})
+                live = []
+                continue
+            if x < 0.38:
+                k = last + rng.choice([1, 1, 1, 2, 3])
+                ops.append({"ev": "push", "k": k, "v": valof(k)})
+                live.append(k)
+            elif x < 0.41:
+                k = rng.randrange(0, last + 1)          # not increasing: must panic if non-empty
+                ops.append({"ev": "push", "k": k, "v": valof(k)})
+                if not live:
+                    live.append(k)
+            elif x < 0.44:
+                ops.append({"ev": "push", "k": rng.randrange(0, 255), "v": 0})   # erased: no-op
+            elif x < 0.56:
+                k = rng.choice(live) if live and rng.random() < 0.6 else rng.randrange(0, last + 3)
+                v = valof(k) if rng.random() < 0.9 else (valof(k) % 7) + 1
+                ops.append({"ev": "find", "k": k, "v": v})
+            elif x < 0.80:
+                if live and rng.random() < 0.8:
+                    if profile == "fifo":
+                        k = live[0] if rng.random() < 0.7 else rng.choice(live)
+                    elif profile == "middle":
+                        k = live[len(live) // 2] if rng.random() < 0.6 else rng.choice(live)
+                    else:
+                        k = rng.choice(live)
+                else:
+                    k = rng.randrange(0, last + 3)
+                ops.append({"ev": "remove", "k": k, "v": valof(k)})
+                if k in live:
+                    live.remove(k)
+            elif x < 0.89:
+                ops.append({"ev": "pop_first"})
+                live = live[1:]
+            elif x < 0.985:
+                ops.append({"ev": "pop_last"})
+                live = live[:-1]
+            else:
+                ops.append({"ev": "clear"})
+                live = []
+        runs.append(ops)
+    return runs
+
+
+def _scan_sorted_trace(trace):
+    """Coverage statistics only: distinct runs where an end removal swept >= 1 tombstone."""
+    nontrivial = set()
+    cur = None
+    hit = False
+    prev_phys = 0
+
+    def close():
+        if cur is not None and hit:
+            nontrivial.add(hashlib.sha1(json.dumps(cur).encode()).hexdigest())
+
+    with open(trace) as f:
+        for line in f:
+            e = json.loads(line)
+            if e["ev"] == "reset":
+                close()
+                cur = [e.get("kind"), e.get("mode")]
+                hit = False
+                prev_phys = 0
+                continue
+            cur.append([e["ev"], e.get("k"), e.get("v")])
+            nphys = len(e["phys"])
+            if e["ev"] in ("pop_first", "pop_last", "remove") and prev_phys - nphys >= 2:
+                hit = True
+            prev_phys = nphys
+    close()
+    return len(nontrivial)
+
+
+def run_c16(res, work, tier, seed):
+    os.makedirs(work, exist_ok=True)
+    rng = random.Random(seed * 7919 + 16)
+    n_runs, n_ops = (40, 200) if tier == "quick" else (300, 1500)
+    rnd = _sorted_random(rng, n_runs, n_ops)
+    det = {m: _sorted_mc(res, work, tier, m) for m in ("kv", "item")}
+    runs = []
+    rid = 0
+    for mode, kind in SORTED_CFGS:
+        for ops in det[mode]:
+            rid += 1
+            runs.append({"run": rid, "cfg": {"kind": kind, "mode": mode}, "ops": ops})
+    n_det = rid
+    for mode, kind in SORTED_CFGS:
+        for ops in rnd:
+            rid += 1
+            runs.append({"run": rid, "cfg": {"kind": kind, "mode": mode}, "ops": ops})
+    trace = core.drive("sorted", runs, work, "sorted")
+    tv = tlc.validate_trace("SortedTrace", "SortedTrace.cfg", trace, os.path.join(work, "tv"))
+    by_id = {r["run"]: dict(r, driver_engine="sorted") for r in runs}
+    res.add_tv(tv, by_id, "sorted", "edge-cover+random")
+    rule = ("distinct runs (container, item convention, operation sequence) of the real SortedDeque "
+            "in which a pop_first/pop_last/remove physically swept at least one tombstone besides "
+            "the removed item; runs = edge-cover paths of SortedMC(kv), SortedMC(item) on Vec and "
+            "SmallVec (%d) + seeded random runs (%d)" % (n_det, rid - n_det))
+    cnt = _scan_sorted_trace(trace)
+    res.data["witness"]["C16"] = {"count": cnt, "rule": rule}
+    res.data["witness"].setdefault("C15", {"count": cnt, "rule": rule})
+    res.data["samples"]["C16"] = [
+        {"run": runs[0]["run"], "cfg": runs[0]["cfg"], "ops": runs[0]["ops"][:25]},
+        {"run": runs[-1]["run"], "cfg": runs[-1]["cfg"], "ops": runs[-1]["ops"][:25]}]
+    os.remove(trace)
 
 
 def replay(rep, work):
     """Re-execute one recorded run; returns the validator's violations."""
     run = rep["run"]
-    driver = rep.get("driver_engine", "deque")
+    driver = run.get("driver_engine") or rep.get("engine", "deque")
     trace = core.drive(driver, [run], work, "replay")
     module = "DequeTrace" if driver == "deque" else "SortedTrace"
     tv = tlc.validate_trace(module, module + ".cfg", trace, os.path.join(work, "tv"))
